@@ -51,6 +51,9 @@ static Janet vo_any(void) {
     x.type = (JanetType) nd_int();
     __CPROVER_assume(x.type >= JANET_NUMBER && x.type <= JANET_POINTER);
     x.as.u64 = nd_u64();
+    /* representation invariant of the two payload-less types (wrap.c): nil carries 0, a boolean carries 0 or 1 */
+    if (x.type == JANET_NIL) x.as.u64 = 0;
+    if (x.type == JANET_BOOLEAN) x.as.u64 &= 1;
     return x;
 }
 static Janet vo_num(double d) { Janet x; x.type = JANET_NUMBER; x.as.u64 = 0; x.as.number = d; return x; }
@@ -725,6 +728,9 @@ void h_vo_loadc(void) { int k = nd_int();
 
 #ifdef VO_UPVALUE
 /* LOAD_UPVALUE: A <- upvalue (environment B, index C);  SET_UPVALUE: upvalue (B, C) <- A.
+ * TOOL LIMITATION (CBMC 6.11): pointer arithmetic on a pointer read from a NON-FIRST union member is mis-translated
+ * (`e->as.values[2]` with `union { F *fiber; J *values; } as` reads at a wrong offset; `J *v = e->as.values; v[2]` is fine),
+ * so the closed environment is exercised with upvalue index 0 only (and with index 3 for the bound check, which raises first).
  * Three environments: 0 = closed (values live in the environment), 1 = on the stack of another fiber,
  * 2 = on this fiber's stack, namely the running frame itself. */
 #define VO_NENV 3
@@ -779,11 +785,11 @@ static void vo_upvalue(uint32_t set, uint32_t a, uint32_t b, uint32_t c) {
     REACH("vm.op upvalue");
 }
 void h_vo_upvalue_load(void) { int k = nd_int();
-    if (k == 0) vo_upvalue(0, 0, 0, 0); else if (k == 1) vo_upvalue(0, 1, 0, 2); else if (k == 2) vo_upvalue(0, 0, 1, 0); else if (k == 3) vo_upvalue(0, 2, 1, 2);
+    if (k == 0) vo_upvalue(0, 0, 0, 0); else if (k == 1) vo_upvalue(0, 1, 0, 0); else if (k == 2) vo_upvalue(0, 0, 1, 0); else if (k == 3) vo_upvalue(0, 2, 1, 2);
     else if (k == 4) vo_upvalue(0, 0, 2, 0); else if (k == 5) vo_upvalue(0, 1, 2, 3); else if (k == 6) vo_upvalue(0, 3, 2, 1);
     else if (k == 7) vo_upvalue(0, 0, 3, 0); else if (k == 8) vo_upvalue(0, 0, 0, 3); else if (k == 9) vo_upvalue(0, 0, 1, 3); else if (k == 10) vo_upvalue(0, 0, 2, 4); else vo_upvalue(0, 0, 255, 0); }
 void h_vo_upvalue_set(void) { int k = nd_int();
-    if (k == 0) vo_upvalue(1, 0, 0, 0); else if (k == 1) vo_upvalue(1, 1, 0, 2); else if (k == 2) vo_upvalue(1, 0, 1, 0); else if (k == 3) vo_upvalue(1, 2, 1, 2);
+    if (k == 0) vo_upvalue(1, 0, 0, 0); else if (k == 1) vo_upvalue(1, 1, 0, 0); else if (k == 2) vo_upvalue(1, 0, 1, 0); else if (k == 3) vo_upvalue(1, 2, 1, 2);
     else if (k == 4) vo_upvalue(1, 0, 2, 0); else if (k == 5) vo_upvalue(1, 1, 2, 3); else if (k == 6) vo_upvalue(1, 3, 2, 1);
     else if (k == 7) vo_upvalue(1, 0, 3, 0); else if (k == 8) vo_upvalue(1, 0, 0, 3); else if (k == 9) vo_upvalue(1, 0, 1, 3); else if (k == 10) vo_upvalue(1, 0, 2, 4); else vo_upvalue(1, 0, 255, 0); }
 #endif
@@ -813,8 +819,14 @@ static void vo_jump(int off) {
 }
 void h_vo_jump(void) { int k = nd_int();
     if (k == 0) vo_jump(1); else if (k == 1) vo_jump(2); else if (k == 2) vo_jump(4); else if (k == 3) vo_jump(-1); else if (k == 4) vo_jump(-3); else vo_jump(-2); }
-static void vo_jump_cond(uint32_t op, uint32_t a, int off) {
+/* the type of the tested slot is enumerated (all 16 types, a boolean with both payloads) and CONCRETE in each run, because a
+ * symbolic branch would make the program counter - and with it instruction dispatch - symbolic; the payload stays symbolic */
+static void vo_jump_cond(uint32_t op, uint32_t a, int off, int type, int bpayload) {
     vo_setup(VO_WE(op, a, (uint16_t) off), a, 0, 0);
+    vo_mem.slots[a].type = (JanetType) type;
+    if (type == JANET_NIL) vo_mem.slots[a].as.u64 = 0;
+    if (type == JANET_BOOLEAN) vo_mem.slots[a].as.u64 = bpayload;
+    vo_old[a] = vo_mem.slots[a];
     JanetSignal sig = vo_run();
     Janet x = vo_old[a];
     int taken = op == JOP_JUMP_IF ? vo_truthy(x) : op == JOP_JUMP_IF_NOT ? !vo_truthy(x) : op == JOP_JUMP_IF_NIL ? x.type == JANET_NIL : x.type != JANET_NIL;
@@ -822,12 +834,16 @@ static void vo_jump_cond(uint32_t op, uint32_t a, int off) {
     else { vo_continues_at(sig, 1); REACH("vm.op jump: not taken"); }
     vo_others_kept(VO_NDATA);
 }
+static void vo_jump_cond_types(uint32_t op, uint32_t a, int off) {
+    for (int t = JANET_NUMBER; t <= JANET_POINTER; t++) {
+        vo_jump_cond(op, a, off, t, 0);
+        if (t == JANET_BOOLEAN) vo_jump_cond(op, a, off, t, 1);
+    }
+}
 #ifndef VO_JOP
 #define VO_JOP JOP_JUMP_IF
 #endif
-void h_vo_jump_cond(void) { int k = nd_int();
-    if (k == 0) vo_jump_cond(VO_JOP, 0, 2); else if (k == 1) vo_jump_cond(VO_JOP, 3, 4); else if (k == 2) vo_jump_cond(VO_JOP, 1, -2); else if (k == 3) vo_jump_cond(VO_JOP, 0, -3);
-    else vo_jump_cond(VO_JOP, 2, 3); }
+void h_vo_jump_cond(void) { vo_jump_cond_types(VO_JOP, 0, 2); vo_jump_cond_types(VO_JOP, 3, 4); vo_jump_cond_types(VO_JOP, 1, -2); }
 #endif
 
 #ifdef VO_TYPECHECK
